@@ -15,9 +15,31 @@ SCOPE = ("Decides the order-preserving structure only: the send queue and the pe
 FIFO_OK = {"VecDeque::push_back", "VecDeque::front", "VecDeque::pop_front", "VecDeque::len", "VecDeque::is_empty", "VecDeque::new"}
 
 
+def fragment_enumeration(cx, inst):
+    """every fragment id 0..=last_fragment_id of a freshly numbered packet is queued once, in ascending order
+    (an inclusive range over the u16 id: an exclusive range over id+1 overflows at 65536 fragments)"""
+    R = cx.R
+    e = R.body("half_connection::HalfConnection::emit_data_frames")
+    bw = BitWidth(R)
+    ok = False
+    for L in e.loops():
+        info = classify(e, L, bw, cx.fa(e))
+        if info.cls == "iterator" and "RangeInclusive" in info.desc:
+            pb = [l for l in call_locs(e, "VecDeque::push_back", r"arg1\.pending_queue") if l.bb in L["body"]]
+            for l in pb:
+                s = show(e.call_expr(e.node_at(l)))
+                inst.site(e, l, "pending_queue.push_back(fragment i)")
+                ok = re.search(r"FragmentRef::new\(.*,RangeInclusive::next\(var\d+\)@Some\.0\)", s) is not None
+            src = [show(e.call_expr(t)) for l, t in e.calls("RangeInclusive::new")]
+            if src != ["RangeInclusive::new(0,PendingPacket::last_fragment_id(RefCell::borrow(PacketSender::emit_packet(arg1.packet_sender,arg4)@Some.0.0)))"]:
+                inst.violation(e.path, "fragment range", "fragments are enumerated over %s, expected 0..=last_fragment_id" % src)
+    if not ok:
+        inst.violation(e.path, "fragment order", "the fragments of a packet are not appended to pending_queue in ascending fragment id")
+
+
 def run(cx):
     R = cx.R
-    with cx.instance("C05.a", "T3 WHO-MAY (queue discipline)", "packet_send_queue and pending_queue are touched only by push_back/front/pop_front/len/is_empty", floor=8) as inst:
+    with cx.instance("C05.a", "T3 WHO-MAY (queue discipline)", "packet_send_queue and pending_queue are touched only by push_back/front/pop_front/len/is_empty", floor=8, exact_floor=False) as inst:
         for b in R.all_bodies():
             if not b.path.startswith("half_connection::"):
                 continue
@@ -69,22 +91,7 @@ def run(cx):
             inst.site(b, loc, "PendingPacket::new(.., sequence_id=%s, ..)" % a)
             if a != "arg1.next_id":
                 inst.violation(b.path, "sequence id", "a packet is numbered `%s`, expected the current next_id" % a, at=b.span_at(loc))
-        e = R.body("half_connection::HalfConnection::emit_data_frames")
-        bw = BitWidth(R)
-        ok = False
-        for L in e.loops():
-            info = classify(e, L, bw, cx.fa(e))
-            if info.cls == "iterator" and "RangeInclusive" in info.desc:
-                pb = [l for l in call_locs(e, "VecDeque::push_back", r"arg1\.pending_queue") if l.bb in L["body"]]
-                for l in pb:
-                    s = show(e.call_expr(e.node_at(l)))
-                    inst.site(e, l, "pending_queue.push_back(fragment i)")
-                    ok = re.search(r"FragmentRef::new\(.*,RangeInclusive::next\(var\d+\)@Some\.0\)", s) is not None
-                src = [show(e.call_expr(t)) for l, t in e.calls("RangeInclusive::new")]
-                if src != ["RangeInclusive::new(0,PendingPacket::last_fragment_id(RefCell::borrow(PacketSender::emit_packet(arg1.packet_sender,arg4)@Some.0.0)))"]:
-                    inst.violation(e.path, "fragment range", "fragments are enumerated over %s, expected 0..=last_fragment_id" % src)
-        if not ok:
-            inst.violation(e.path, "fragment order", "the fragments of a packet are not appended to pending_queue in ascending fragment id")
+        fragment_enumeration(cx, inst)
     from props.C01 import inst_receive_walk
     inst_receive_walk(cx, "C05.c")
     # TimeSensitive packets are "delivered at their place or dropped by the sender, nothing else":
@@ -100,6 +107,15 @@ def run(cx):
     pipeline_presence(cx, "C05.h")
     dispatch_table(cx, "C05.i", only={"DataFrame", "SyncFrame", "AckFrame"})
     ack_processing_presence(cx, "C05.j")
+    # allocation budgets that drift (charge != refund) end with the sender refusing every packet or the
+    # receiver discarding them, on a loss-free link; raw id comparisons stall the stream at the wrap-around
+    from props.C06 import inst_release, inst_sender_alloc_pair
+    inst_sender_alloc_pair(cx, "C05.k")
+    inst_release(cx, "C05.l")
+    from props.idarith import id_arith_discipline
+    id_arith_discipline(cx, "C05.m")
+    from props.shared import emitter_no_abandon
+    emitter_no_abandon(cx, "C05.n")
     with cx.instance("C05.e", "T3 WHO-MAY", "the send queue loses packets only through the stale-TimeSensitive drop and the move into the send window", floor=2) as inst:
         b = R.body("PacketSender::emit_packet")
         pops = call_sites(b, "VecDeque::pop_front", r"arg1\.packet_send_queue")
@@ -117,6 +133,21 @@ def run(cx):
 
 
 SELFTEST = [
+    {"name": "data emitter gives up for lack of credit without finalising the frame in progress",
+     "edits": [{"file": "src/half_connection/emit.rs", "old": "                // Out of bandwidth\n                self.finalize();\n                self.frame_queue.mark_rate_limited();", "new": "                // Out of bandwidth\n                self.frame_queue.mark_rate_limited();"}],
+     "expect": ["C05.n"]},
+    {"name": "emit_data_frames forgets the final finalize",
+     "edits": [{"file": "src/half_connection/mod.rs", "old": "        dfe.finalize();\n", "new": ""}],
+     "expect": ["C05.n"]},
+    {"name": "data emitter starts a new frame over a full one without finalising it",
+     "edits": [{"file": "src/half_connection/emit.rs", "old": "                // Would exceed maximum\n                self.finalize();\n            } else {\n                next_frame.fbuilder.add(&datagram);", "new": "                // Would exceed maximum\n            } else {\n                next_frame.fbuilder.add(&datagram);"}],
+     "expect": ["C05.n"]},
+    {"name": "sender refunds the payload size instead of the charged allocation",
+     "edits": [{"file": "src/half_connection/packet_sender.rs", "old": "            self.alloc -= entry.alloc_size;", "new": "            self.alloc -= entry.packet.borrow().size();"}],
+     "expect": ["C05.k"]},
+    {"name": "frame window test without modular arithmetic",
+     "edits": [{"file": "src/half_connection/frame_queue.rs", "old": "self.next_id().wrapping_sub(self.window.base_id) < self.window.size", "new": "self.next_id() < self.window.base_id.wrapping_add(self.window.size)"}],
+     "expect": ["C05.m"]},
     {"name": "push_front instead of push_back when queueing fragments",
      "edits": [{"file": "src/half_connection/mod.rs", "old": "self.pending_queue.push_back(entry);", "new": "self.pending_queue.push_front(entry);"}],
      "expect": ["C05.a"]},
